@@ -30,7 +30,7 @@ def eq (a b : List Nat) : Bool := UI.eq a b
 def ne (a b : List Nat) : Bool := !eq a b
 end II
 
-/-- `int/cmp.rs impls!` over a given `cmp` (instantiated with `UI.cmp` and `II.cmp w`) -/
+/-! `int/cmp.rs impls!` over a given `cmp` (instantiated with `UI.cmp` and `II.cmp w`) -/
 namespace CmpImpl
 variable (cmp : List Nat → List Nat → Ordering)
 def max (a b : List Nat) : List Nat :=
